@@ -674,6 +674,31 @@ class C03(Prop):
             if ln > 5 and rng.random() < 0.7:
                 b[4], b[5] = 0, rng.randint(0, 48)
             yield Case({"op": "tm_unpack", "raw": hx(bytes(b)), "ts_len": rng.choice([0, 1, 7, 7, 12])}, "any", tag="random-octets")
+        # ---- cold start (core.cold_start_sample runs the cases named by cold_start_cases() as the first and only operation of
+        #      a fresh interpreter): one case per ENTRY PATH of the checksum, so that each of them is, once, the first thing a
+        #      process does with the package. A telemetry packet on which nothing was read (hist.read = []) whose views are then
+        #      read with calc_crc (crc16 looked at right after it) / to_space_packet().pack() / pack() FIRST; the service-17
+        #      wrapper packed first; both decoders on octets that were not made by the package. Emitted last: the stream of the
+        #      cases above is what it was. ----
+        a = rand_args(rng, 7, 3)
+        old = dict(a, apid=(a["apid"] + 1) % 2048)
+        for first in ("calc_crc", "to_space_packet", "pack"):
+            yield Case({"op": "tm_pack", **a, "hist": {"from": old, "how": "new", "path": "tm", "read": [], "hold": False,
+                                                       "after": [first] + [v for v in TM_VIEW_NAMES if v != first]}},
+                       "valid", tag=f"cold-start:{first}-first")
+        b = rand_args(rng, 7, 2)
+        for key in ("service", "msg_counter"):
+            b.pop(key)
+        yield Case({"op": "s17_pack", **b}, "valid", tag="cold-start:s17-pack-first")
+        c = rand_args(rng, 7, 5)
+        body = spec_tm(c)
+        raw = body + crc_ccitt(body).to_bytes(2, "big")
+        yield Case({"op": "tm_unpack", "raw": hx(raw), "ts_len": 7}, "valid", tag="cold-start:unpack-first")
+        yield Case({"op": "s17_unpack", "raw": hx(raw), "ts_len": 7}, "valid", tag="cold-start:s17-unpack-first")
+
+    def cold_start_cases(self):
+        """always in the cold-start sample: one case per entry path of the checksum (see the end of `cases`)"""
+        return [f"cold-start:{p}-first" for p in ("calc_crc", "to_space_packet", "pack", "s17-pack", "unpack", "s17-unpack")]
 
 
 PROP = C03()
